@@ -230,7 +230,8 @@ class World:
         proc.mid_write = not first       # lets the scheduler tell a torn write from a plain crash
         if not self.concurrent or rest <= 1 or self.splits >= 6:
             return rest
-        if not self.ch.chance("split-write?", 1, 4, stream="sched"):
+        contended = any(ent[0] == rel and ent[1] is not proc and not ent[1].dead for ent in SEAM.fds.values())
+        if not self.ch.chance("split-write?", 3 if contended else 1, 4, stream="sched"):
             return rest
         self.splits += 1
         k = self.ch.weighted("cut-where", [2, 2, 4, 1], stream="sched")
@@ -386,18 +387,27 @@ class CacheEngineBase(Engine):
         fam = {}
         for v in VNAMES:
             fam[v] = self.twin("defs", defs_text([("Foo", v)]))[0]
-            self.twin("defs", defs_text([("x_Foo", v)]))
         self.indistinguishable = [(a, b) for a in VNAMES for b in VNAMES if a < b and fam[a][0] == fam[b][0]
                                   and (fam[a][1], fam[a][2]) == (fam[b][1], fam[b][2])]
 
     # ---- the clean twin -----------------------------------------------------------------
     def twin(self, modname, text):
+        """per class of the defining module: what that declaration is and does when it is defined
+        alone, by a pristine process, on an empty cache"""
         key = (modname, text)
         if key in self.twins:
             return self.twins[key]
+        head, *blocks = text.split("\nclass ")
+        res = [self._twin_one(head + "\nclass " + b) for b in blocks]
+        self.twins[key] = res
+        return res
+
+    def _twin_one(self, text):
+        if text in self.twins:
+            return self.twins[text]
         saved = SEAM.save()
         root = project.fresh_dir(os.path.join(self.wdir, "twin"))
-        with REAL_IO_OPEN(os.path.join(root, modname + ".py"), "w") as f:
+        with REAL_IO_OPEN(os.path.join(root, "defs.py"), "w") as f:
             f.write(text)
         out = Outcome()
         from .chooser import Chooser
@@ -407,19 +417,23 @@ class CacheEngineBase(Engine):
         res = []
 
         def prog(proc):
-            w.define_run(proc, modname)
-            if proc.define_errors:
-                raise RuntimeError("the clean twin cannot define %s: %s\n%s" % (modname, proc.define_errors, text))
+            w.define_run(proc, "defs")
+            if proc.define_errors or len(proc.classes) != 1:
+                raise RuntimeError("the clean twin cannot define its class: %s\n%s" % (proc.define_errors, text))
             PE = sys.modules["bisturi.packet"].PacketError
             Packet = sys.modules["bisturi.packet"].Packet
-            for (_, _, i, cls) in proc.classes:
+            cls = proc.classes[0][3]
+            SEAM.inside = True
+            try:
                 res.append((behave(cls, PE), code_sig(cls.pack_impl, Packet.pack_impl), code_sig(cls.unpack_impl, Packet.unpack_impl)))
+            finally:
+                SEAM.inside = False
         try:
             w.run_alone(p, prog)
         finally:
             SEAM.restore(saved)
-        self.twins[key] = res
-        return res
+        self.twins[text] = res[0]
+        return res[0]
 
     def check_proc(self, world, proc, label_prop):
         """O1-O3 for every class this process defined; returns a violation tuple or None"""
@@ -470,11 +484,9 @@ class CacheEngineBase(Engine):
         """name the declaration whose generated code this is, if it is one of the family"""
         idx = 1 if which == "pack_impl" else 2
         for v in VNAMES:
-            for cname in ("Foo", "x_Foo"):
-                key = ("defs", defs_text([(cname, v)]))
-                tw = self.twins.get(key)
-                if tw and tw[0][idx] == sig:
-                    return " (it is the code of variant %s)" % v
+            tw = self.twins.get(("defs", defs_text([("Foo", v)])))
+            if tw and tw[0][idx] == sig:
+                return " (it is the code of variant %s)" % v
         return ""
 
 
